@@ -25,6 +25,7 @@ from typing import Any
 
 from happysimulator.core.entity import Entity
 from happysimulator.core.event import Event
+from happysimulator.core.sim_future import SimFuture
 
 logger = logging.getLogger(__name__)
 
@@ -131,7 +132,7 @@ class Semaphore(Entity):
 
         return False
 
-    def acquire(self, count: int = 1) -> Generator[float]:
+    def acquire(self, count: int = 1) -> Generator[float | SimFuture]:
         """Acquire permits, blocking if necessary.
 
         This is a generator that yields control while waiting for permits.
@@ -141,7 +142,8 @@ class Semaphore(Entity):
             count: Number of permits to acquire.
 
         Yields:
-            0.0 when permits are acquired.
+            0.0 when permits are acquired immediately; otherwise a SimFuture
+            that release() resolves when the permits are granted.
 
         Raises:
             ValueError: If count < 1 or count > capacity.
@@ -161,20 +163,19 @@ class Semaphore(Entity):
         self._contentions += 1
         enqueue_time = self._clock.now.nanoseconds if self._clock else 0
 
-        acquired = [False]
+        # Future that release() resolves when our permits are granted
+        acquired = SimFuture()
 
-        def on_wake():
-            acquired[0] = True
-
-        waiter = _Waiter(count=count, callback=on_wake, enqueue_time_ns=enqueue_time)
+        waiter = _Waiter(count=count, callback=acquired.resolve, enqueue_time_ns=enqueue_time)
         self._waiters.append(waiter)
 
         # Track peak waiters
         if len(self._waiters) > self._peak_waiters:
             self._peak_waiters = len(self._waiters)
 
-        while not acquired[0]:
-            yield 0.0
+        # Park until woken (waiting consumes no simulated activity)
+        while not acquired.is_resolved:
+            yield acquired
 
         self._acquisitions += count
 
